@@ -42,6 +42,14 @@ type Passport {
   number: String
   owner: Person
 }
+type Husband {
+  name: String
+  spouse: Wife @primary
+}
+type Wife {
+  name: String
+  spouse: Husband
+}
 type Node {
   label: String
   parent: Node @primary @relation(name: "tree")
@@ -86,6 +94,16 @@ func genC09(seed int64, tier string) *Plan {
 			p.Steps = append(p.Steps, Step{K: "txn", A: r.IntN(64), B: r.IntN(64), C: r.IntN(2)})
 		}
 	}
+	// a second one-to-one pair whose two sides use the SAME field name (own stream of choices)
+	rp := newRng(seed, 91)
+	var steps []Step
+	for _, st := range p.Steps {
+		steps = append(steps, st)
+		if chance(rp, 18) {
+			steps = append(steps, Step{K: "pair", A: rp.IntN(4), B: rp.IntN(64), C: rp.IntN(64)})
+		}
+	}
+	p.Steps = steps
 	return p
 }
 
@@ -111,6 +129,8 @@ type c09Run struct {
 	users     map[string]int // id -> age
 	books     map[string]c09Book
 	libs      map[string]bool
+	husbands  map[string]string // husband -> wife id ("" none)
+	wives     map[string]bool
 	persons   map[string]string // person -> passport id ("" none)
 	passports map[string]bool
 	nodes     map[string]string // node -> parent id
@@ -125,6 +145,7 @@ func runC09(p *Plan, res *Result) {
 	defer cancel()
 	installRand(p.Seed)
 	r := &c09Run{p: p, res: res, ctx: ctx, colIDs: map[string]string{}, users: map[string]int{}, articles: map[string]c09Article{}, books: map[string]c09Book{}, libs: map[string]bool{},
+		husbands: map[string]string{}, wives: map[string]bool{},
 		persons: map[string]string{}, passports: map[string]bool{}, nodes: map[string]string{}, ix: map[int]bool{}, shape: map[string]bool{}}
 	for _, name := range []string{"n", "rm"} {
 		setRandStep("start|" + name)
@@ -368,6 +389,55 @@ func (r *c09Run) exec(i int, s Step) {
 			}
 			r.persons[person] = target
 		}
+	case "pair":
+		// one-to-one, Husband.spouse is the primary side, Wife.spouse the secondary: same field name on both sides
+		if s.A == 0 {
+			id, errs := r.gqlID(fmt.Sprintf(`mutation { create_Wife(input: {name: "w%d"}) { _docID } }`, r.seq), "create_Wife")
+			if len(errs) > 0 {
+				r.res.violate("C09", "write-failed", "create-wife", i, "%v", errs)
+				return
+			}
+			r.wives[id] = true
+			return
+		}
+		target := ""
+		if s.A != 1 {
+			target = pickKey(r.wives, s.B)
+		}
+		taken := false
+		for _, w := range r.husbands {
+			if target != "" && w == target {
+				taken = true
+			}
+		}
+		var q, key string
+		husband := ""
+		if s.A == 3 && len(r.husbands) > 0 {
+			husband = pickKey(r.husbands, s.C)
+			if r.husbands[husband] == target {
+				taken = false
+			}
+			q, key = fmt.Sprintf(`mutation { update_Husband(docID: %q, input: {spouse: %s}) { _docID } }`, husband, lit(target)), "update_Husband"
+		} else {
+			q, key = fmt.Sprintf(`mutation { create_Husband(input: {name: "m%d", spouse: %s}) { _docID } }`, r.seq, lit(target)), "create_Husband"
+		}
+		id, errs := r.gqlID(q, key)
+		if len(errs) > 0 {
+			if taken {
+				r.res.Stats["one_to_one_rejects"]++
+				return
+			}
+			r.res.violate("C09", "write-failed", "one-to-one/"+key, i, "%s: %v", q, errs)
+			return
+		}
+		if taken {
+			r.res.violate("C09", "one-to-one-held-twice", key, i, "%s was accepted although wife %s is already linked from another husband", q, target)
+			return
+		}
+		if husband == "" {
+			husband = id
+		}
+		r.husbands[husband] = target
 	case "node":
 		parent := ""
 		if s.A != 0 {
@@ -723,6 +793,45 @@ func (r *c09Run) check(i int, after string) {
 		}
 		if got != held[id] {
 			r.res.violate("C09", "sides-disagree", "one-to-one/"+cls, i, "Passport %s owner{_docID}=%q, but the person side says %q", id, got, held[id])
+			return
+		}
+	}
+	// --- the pair with the same field name on both sides
+	data, ok = r.q(i, `query { Husband { _docID spouse { _docID } } }`)
+	if !ok {
+		return
+	}
+	heldW := map[string]string{}
+	for _, row := range rows(data, "Husband") {
+		id := fmt.Sprint(row["_docID"])
+		got := ""
+		if m, ok := row["spouse"].(map[string]any); ok && m != nil {
+			got = fmt.Sprint(m["_docID"])
+		}
+		if got != r.husbands[id] {
+			r.res.violate("C09", "child-side-differs-from-link", "one-to-one-same-name/"+cls, i, "Husband %s spouse{_docID}=%q, relation field %q", id, got, r.husbands[id])
+			return
+		}
+		if got != "" {
+			if other, dup := heldW[got]; dup {
+				r.res.violate("C09", "one-to-one-held-twice", "observed/"+cls, i, "wife %s is linked from husbands %s and %s", got, other, id)
+				return
+			}
+			heldW[got] = id
+		}
+	}
+	data, ok = r.q(i, `query { Wife { _docID spouse { _docID } } }`)
+	if !ok {
+		return
+	}
+	for _, row := range rows(data, "Wife") {
+		id := fmt.Sprint(row["_docID"])
+		got := ""
+		if m, ok := row["spouse"].(map[string]any); ok && m != nil {
+			got = fmt.Sprint(m["_docID"])
+		}
+		if got != heldW[id] {
+			r.res.violate("C09", "sides-disagree", "one-to-one-same-name/"+cls, i, "Wife %s spouse{_docID}=%q, but the husband side says %q", id, got, heldW[id])
 			return
 		}
 	}
